@@ -1,11 +1,12 @@
 (* Property C02: an event takes effect only with a 66 % power quorum of distinct registered oracles,
    cast by online oracles through their registered bridger; recorded total power >= online power.
    Statements over the executable model M_Attest, for every configuration and operation list. *)
-From Coq Require Import ZArith List Bool.
 From Coq Require Import String.
+From Coq Require Import ZArith List Bool.
 From FxV Require gen.Gen_EndBlock.
 From FxV Require Import gen.Gen_Attest model.M_Attest proofs.P_Attest proofs.P_AttestGen.
 Import ListNotations.
+Open Scope list_scope.
 Open Scope Z_scope.
 
 (* whenever a vote makes an event take effect, the summed power P of the votes counted (each vote of an address
@@ -124,6 +125,17 @@ Theorem C02_admission : forall c h b n cl park ms,
                 o_online rec = true /\ o_bridger rec = b.
 Proof. exact vote_admission. Qed.
 Print Assumptions C02_admission.
+
+(* ---- lifecycle: genesis export + import; C02_total_ge_online, C02_admission, C02_no_double_count and C02_quorum*
+        quantify over histories with such steps; the step itself: ---- *)
+Theorem C02_export_import : forall c s,
+  let s' := export_import c s in
+  last_obs s' = last_obs s /\ atts s' = atts s /\ applied s' = applied s /\ effects s' = effects s /\
+  vlog s' = vlog s /\ oracles s' = oracles s /\ proposal s' = proposal s /\
+  pending s' = [] /\ last_total s' = online_power (oracles s') /\
+  (forall k a v, aget keq k (atts s) = Some a -> In v (a_votes a) -> fst k <= cursor c s' v).
+Proof. exact export_import_effect. Qed.
+Print Assumptions C02_export_import.
 
 (* ---- real end-block steps: M_EndBlock.slashing (three loops, signed window, unslashed-object selection) decides
         who is slashed; C02_total_ge_online and C02_admission above quantify over these steps too ---- *)
